@@ -884,6 +884,11 @@ class BackendZ3(Backend):
             for a, nice_ast in zip(c, converted, strict=False):
                 ast = nice_ast.ast
                 h = self._z3_ast_hash(ast)
+                if h not in self._ast_cache:
+                    # the key is the address of the Z3 term: the entry must keep the term alive (the eviction callback
+                    # releases this reference), or the address can be reused by a different term that would then be
+                    # abstracted to this constraint
+                    z3.Z3_inc_ref(self._context.ref(), ast)
                 self._ast_cache[h] = (a, ast)
         return self._add(s, converted, track=track)
 
